@@ -14,6 +14,14 @@ class N:
         self.pmax = dict(pmax or {})  # parameter index -> assumed maximum (count parameters)
         self.sites = sites            # number of error-emitting sites (validate / recover_with nodes)
         self.ids = tuple(ids)         # validate ids used
+        self.total = False            # never fails, whatever the input (conservative: False when unsure)
+        self.all = False              # total AND always consumes the whole remaining input
+
+
+def _t(n, total, all_=False):
+    n.total = bool(total)
+    n.all = bool(all_) and n.total
+    return n
 
 
 def _mk(rs, ast, desc, kids=(), params=(), flags=(), pmax=None, site=0, ident=None):
@@ -61,7 +69,7 @@ def End():
 
 
 def Empty():
-    return _mk("empty_()", "G::Empty", "empty")
+    return _t(_mk("empty_()", "G::Empty", "empty"), True, False)
 
 
 def Custom2(i):
@@ -70,48 +78,48 @@ def Custom2(i):
 
 # ---- sequencing ---------------------------------------------------------------------------------
 def Then(a, b):
-    return _mk(f"then({a.rs}, {b.rs})", f"G::Then(&{a.ast}, &{b.ast})", f"({a.desc} {b.desc})", [a, b])
+    return _t(_mk(f"then({a.rs}, {b.rs})", f"G::Then(&{a.ast}, &{b.ast})", f"({a.desc} {b.desc})", [a, b]), a.total and b.total, b.all)
 
 
 def IgnoreThen(a, b):
-    return _mk(f"ithen({a.rs}, {b.rs})", f"G::IgnoreThen(&{a.ast}, &{b.ast})",
-               f"({a.desc} >> {b.desc})", [a, b])
+    return _t(_mk(f"ithen({a.rs}, {b.rs})", f"G::IgnoreThen(&{a.ast}, &{b.ast})",
+               f"({a.desc} >> {b.desc})", [a, b]), a.total and b.total, b.all)
 
 
 def ThenIgnore(a, b):
-    return _mk(f"theni({a.rs}, {b.rs})", f"G::ThenIgnore(&{a.ast}, &{b.ast})",
-               f"({a.desc} << {b.desc})", [a, b])
+    return _t(_mk(f"theni({a.rs}, {b.rs})", f"G::ThenIgnore(&{a.ast}, &{b.ast})",
+               f"({a.desc} << {b.desc})", [a, b]), a.total and b.total, b.all)
 
 
 def Seq3(a, b, c, form="tuple"):
     fn = {"tuple": "seq3", "array": "seq3_arr"}[form]
-    return _mk(f"{fn}({a.rs}, {b.rs}, {c.rs})", f"G::Seq3(&{a.ast}, &{b.ast}, &{c.ast})",
-               f"group{'[]' if form == 'array' else '()'}({a.desc}, {b.desc}, {c.desc})", [a, b, c])
+    return _t(_mk(f"{fn}({a.rs}, {b.rs}, {c.rs})", f"G::Seq3(&{a.ast}, &{b.ast}, &{c.ast})",
+               f"group{'[]' if form == 'array' else '()'}({a.desc}, {b.desc}, {c.desc})", [a, b, c]), a.total and b.total and c.total, c.all)
 
 
 def Delim(o, body, c):
-    return _mk(f"delim({o.rs}, {body.rs}, {c.rs})", f"G::Delim(&{o.ast}, &{body.ast}, &{c.ast})",
-               f"{body.desc}.delimited_by({o.desc}, {c.desc})", [o, body, c])
+    return _t(_mk(f"delim({o.rs}, {body.rs}, {c.rs})", f"G::Delim(&{o.ast}, &{body.ast}, &{c.ast})",
+               f"{body.desc}.delimited_by({o.desc}, {c.desc})", [o, body, c]), o.total and body.total and c.total, c.all)
 
 
 def Pad(body, p):
-    return _mk(f"pad({body.rs}, {p.rs})", f"G::Pad(&{body.ast}, &{p.ast})",
-               f"{body.desc}.padded_by({p.desc})", [body, p])
+    return _t(_mk(f"pad({body.rs}, {p.rs})", f"G::Pad(&{body.ast}, &{p.ast})",
+               f"{body.desc}.padded_by({p.desc})", [body, p]), body.total and p.total, p.all)
 
 
 # ---- choice / option / lookahead ----------------------------------------------------------------
 def Or(a, b):
-    return _mk(f"or({a.rs}, {b.rs})", f"G::Or(&{a.ast}, &{b.ast})", f"({a.desc} | {b.desc})", [a, b])
+    return _t(_mk(f"or({a.rs}, {b.rs})", f"G::Or(&{a.ast}, &{b.ast})", f"({a.desc} | {b.desc})", [a, b]), a.total or b.total, a.all)
 
 
 def Or3(a, b, c, form="tuple"):
     fn = {"tuple": "or3", "vec": "or3_vec", "array": "or3_arr"}[form]
-    return _mk(f"{fn}({a.rs}, {b.rs}, {c.rs})", f"G::Or3(&{a.ast}, &{b.ast}, &{c.ast})",
-               f"choice<{form}>({a.desc}, {b.desc}, {c.desc})", [a, b, c])
+    return _t(_mk(f"{fn}({a.rs}, {b.rs}, {c.rs})", f"G::Or3(&{a.ast}, &{b.ast}, &{c.ast})",
+               f"choice<{form}>({a.desc}, {b.desc}, {c.desc})", [a, b, c]), a.total or b.total or c.total, a.all)
 
 
 def OrNot(a):
-    return _mk(f"ornot({a.rs})", f"G::OrNot(&{a.ast})", f"{a.desc}?", [a])
+    return _t(_mk(f"ornot({a.rs})", f"G::OrNot(&{a.ast})", f"{a.desc}?", [a]), True, a.all)
 
 
 def Not(a):
@@ -119,28 +127,28 @@ def Not(a):
 
 
 def AndIs(a, b):
-    return _mk(f"andis({a.rs}, {b.rs})", f"G::AndIs(&{a.ast}, &{b.ast})", f"({a.desc} & {b.desc})", [a, b])
+    return _t(_mk(f"andis({a.rs}, {b.rs})", f"G::AndIs(&{a.ast}, &{b.ast})", f"({a.desc} & {b.desc})", [a, b]), a.total and b.total, a.all)
 
 
 def Rewind(a):
-    return _mk(f"rew({a.rs})", f"G::Rewind(&{a.ast})", f"rewind({a.desc})", [a])
+    return _t(_mk(f"rew({a.rs})", f"G::Rewind(&{a.ast})", f"rewind({a.desc})", [a]), a.total, False)
 
 
 # ---- mapping ------------------------------------------------------------------------------------
 def Tag(k, a):
-    return _mk(f"tag({k}, {a.rs})", f"G::Tag({k}, &{a.ast})", f"{a.desc}#{k}", [a])
+    return _t(_mk(f"tag({k}, {a.rs})", f"G::Tag({k}, &{a.ast})", f"{a.desc}#{k}", [a]), a.total, a.all)
 
 
 def Sp(a):
-    return _mk(f"sp({a.rs})", f"G::Span(&{a.ast})", f"<{a.desc}>", [a])
+    return _t(_mk(f"sp({a.rs})", f"G::Span(&{a.ast})", f"<{a.desc}>", [a]), a.total, a.all)
 
 
 def To(a, c):
-    return _mk(f"to_({a.rs}, {c})", f"G::To(&{a.ast}, {c})", f"{a.desc}.to({c})", [a])
+    return _t(_mk(f"to_({a.rs}, {c})", f"G::To(&{a.ast}, {c})", f"{a.desc}.to({c})", [a]), a.total, a.all)
 
 
 def Ignored(a):
-    return _mk(f"ign({a.rs})", f"G::Ignored(&{a.ast})", f"{a.desc}.ignored()", [a])
+    return _t(_mk(f"ign({a.rs})", f"G::Ignored(&{a.ast})", f"{a.desc}.ignored()", [a]), a.total, a.all)
 
 
 def Filter(a, i):
@@ -160,7 +168,7 @@ def TryMapWith(a, i):
 
 def Bx(a):
     """`.boxed()` — dyn path through go_emit/go_check; same semantics"""
-    return N(f"bx({a.rs})", a.ast, f"box[{a.desc}]", a.depth, a.params, a.flags | {"boxed"}, a.pmax, a.sites, a.ids)
+    return _t(N(f"bx({a.rs})", a.ast, f"box[{a.desc}]", a.depth, a.params, a.flags | {"boxed"}, a.pmax, a.sites, a.ids), a.total, a.all)
 
 
 # ---- repetition ---------------------------------------------------------------------------------
@@ -244,8 +252,8 @@ def Rep(a, lo, hi):
         rs = f"rep_inf({a.rs}, {lo.rs})"
     else:
         rs = f"rep({a.rs}, {lo.rs}, {hi.rs})"
-    return _mk(rs, f"G::Rep(&{a.ast}, {lo.ast}, {hi.ast})", f"{a.desc}{{{lo.desc},{hi.desc}}}", [a],
-               params=lo.params + hi.params, flags=["rep"], pmax=_pm(lo, hi))
+    return _t(_mk(rs, f"G::Rep(&{a.ast}, {lo.ast}, {hi.ast})", f"{a.desc}{{{lo.desc},{hi.desc}}}", [a],
+               params=lo.params + hi.params, flags=["rep"], pmax=_pm(lo, hi)), lo.kind == 'K' and lo.v == 0, False)
 
 
 def RepExactly(a, n):
@@ -258,8 +266,8 @@ def RepCount(a, lo, hi):
         rs = f"repcount_inf({a.rs}, {lo.rs})"
     else:
         rs = f"repcount({a.rs}, {lo.rs}, {hi.rs})"
-    return _mk(rs, f"G::RepCount(&{a.ast}, {lo.ast}, {hi.ast})", f"count({a.desc}{{{lo.desc},{hi.desc}}})",
-               [a], params=lo.params + hi.params, flags=["rep"], pmax=_pm(lo, hi))
+    return _t(_mk(rs, f"G::RepCount(&{a.ast}, {lo.ast}, {hi.ast})", f"count({a.desc}{{{lo.desc},{hi.desc}}})",
+               [a], params=lo.params + hi.params, flags=["rep"], pmax=_pm(lo, hi)), lo.kind == 'K' and lo.v == 0, False)
 
 
 def Sep(item, sep, lo, hi, lead, trail):
@@ -272,10 +280,10 @@ def Sep(item, sep, lo, hi, lead, trail):
         fl.append("sep_trail")
     if not (lead.kind == "K" and not lead.v):
         fl.append("sep_lead")
-    return _mk(rs, f"G::Sep(&{item.ast}, &{sep.ast}, {lo.ast}, {hi.ast}, {lead.ast}, {trail.ast})",
+    return _t(_mk(rs, f"G::Sep(&{item.ast}, &{sep.ast}, {lo.ast}, {hi.ast}, {lead.ast}, {trail.ast})",
                f"{item.desc}.sep_by({sep.desc}){{{lo.desc},{hi.desc}}}[lead={lead.desc},trail={trail.desc}]",
                [item, sep], params=lo.params + hi.params + lead.params + trail.params, flags=fl,
-               pmax=_pm(lo, hi))
+               pmax=_pm(lo, hi)), lo.kind == 'K' and lo.v == 0, False)
 
 
 def RepUnit(a, lo, hi):
@@ -283,8 +291,8 @@ def RepUnit(a, lo, hi):
         rs = f"rep_unit_inf({a.rs}, {lo.rs})"
     else:
         rs = f"rep_unit({a.rs}, {lo.rs}, {hi.rs})"
-    return _mk(rs, f"G::RepUnit(&{a.ast}, {lo.ast}, {hi.ast})", f"unit({a.desc}{{{lo.desc},{hi.desc}}})", [a],
-               params=lo.params + hi.params, flags=["rep"], pmax=_pm(lo, hi))
+    return _t(_mk(rs, f"G::RepUnit(&{a.ast}, {lo.ast}, {hi.ast})", f"unit({a.desc}{{{lo.desc},{hi.desc}}})", [a],
+               params=lo.params + hi.params, flags=["rep"], pmax=_pm(lo, hi)), lo.kind == 'K' and lo.v == 0, False)
 
 
 def _sepflags(lead, trail):
@@ -297,19 +305,19 @@ def _sepflags(lead, trail):
 
 
 def SepUnit(item, sep, lo, hi, lead, trail):
-    return _mk(f"sep_unit({item.rs}, {sep.rs}, {lo.rs}, {hi.rs}, {lead.rs}, {trail.rs})",
+    return _t(_mk(f"sep_unit({item.rs}, {sep.rs}, {lo.rs}, {hi.rs}, {lead.rs}, {trail.rs})",
                f"G::SepUnit(&{item.ast}, &{sep.ast}, {lo.ast}, {hi.ast}, {lead.ast}, {trail.ast})",
                f"unit({item.desc}.sep_by({sep.desc}){{{lo.desc},{hi.desc}}}[lead={lead.desc},trail={trail.desc}])",
                [item, sep], params=lo.params + hi.params + lead.params + trail.params, flags=_sepflags(lead, trail),
-               pmax=_pm(lo, hi))
+               pmax=_pm(lo, hi)), lo.kind == 'K' and lo.v == 0, False)
 
 
 def SepCount(item, sep, lo, hi, lead, trail):
-    return _mk(f"sep_count({item.rs}, {sep.rs}, {lo.rs}, {hi.rs}, {lead.rs}, {trail.rs})",
+    return _t(_mk(f"sep_count({item.rs}, {sep.rs}, {lo.rs}, {hi.rs}, {lead.rs}, {trail.rs})",
                f"G::SepCount(&{item.ast}, &{sep.ast}, {lo.ast}, {hi.ast}, {lead.ast}, {trail.ast})",
                f"count({item.desc}.sep_by({sep.desc}){{{lo.desc},{hi.desc}}}[lead={lead.desc},trail={trail.desc}])",
                [item, sep], params=lo.params + hi.params + lead.params + trail.params, flags=_sepflags(lead, trail),
-               pmax=_pm(lo, hi))
+               pmax=_pm(lo, hi)), lo.kind == 'K' and lo.v == 0, False)
 
 
 def CollectEx2(a):
@@ -317,38 +325,38 @@ def CollectEx2(a):
 
 
 def Enum(a, lo, hi):
-    return _mk(f"enum_({a.rs}, {lo.rs}, {hi.rs})", f"G::Enum(&{a.ast}, {lo.ast}, {hi.ast})",
+    return _t(_mk(f"enum_({a.rs}, {lo.rs}, {hi.rs})", f"G::Enum(&{a.ast}, {lo.ast}, {hi.ast})",
                f"enumerate({a.desc}{{{lo.desc},{hi.desc}}})", [a], params=lo.params + hi.params, flags=["rep"],
-               pmax=_pm(lo, hi))
+               pmax=_pm(lo, hi)), lo.kind == 'K' and lo.v == 0, False)
 
 
 def Lazy(a):
-    return _mk(f"lazy_({a.rs})", f"G::Lazy(&{a.ast})", f"{a.desc}.lazy()", [a])
+    return _t(_mk(f"lazy_({a.rs})", f"G::Lazy(&{a.ast})", f"{a.desc}.lazy()", [a]), a.total, a.all)
 
 
 def Rest():
-    return _mk("rest()", "G::Rest", "rest")
+    return _t(_mk("rest()", "G::Rest", "rest"), True, True)
 
 
 def Foldl(a, b):
-    return _mk(f"foldl_({a.rs}, {b.rs})", f"G::Foldl(&{a.ast}, &{b.ast})", f"foldl({a.desc}, {b.desc}*)",
-               [a, b], flags=["rep"])
+    return _t(_mk(f"foldl_({a.rs}, {b.rs})", f"G::Foldl(&{a.ast}, &{b.ast})", f"foldl({a.desc}, {b.desc}*)",
+               [a, b], flags=["rep"]), a.total, False)
 
 
 def Foldr(a, b):
-    return _mk(f"foldr_({a.rs}, {b.rs})", f"G::Foldr(&{a.ast}, &{b.ast})", f"foldr({a.desc}*, {b.desc})",
-               [a, b], flags=["rep"])
+    return _t(_mk(f"foldr_({a.rs}, {b.rs})", f"G::Foldr(&{a.ast}, &{b.ast})", f"foldr({a.desc}*, {b.desc})",
+               [a, b], flags=["rep"]), b.total, b.all)
 
 
 # ---- non-fatal errors / recovery ----------------------------------------------------------------
 def Validate(a, ident):
-    return _mk(f"val({a.rs}, {ident})", f"G::Validate(&{a.ast}, {ident})", f"{a.desc}.validate(emit {ident})",
-               [a], flags=["validate"], site=1, ident=ident)
+    return _t(_mk(f"val({a.rs}, {ident})", f"G::Validate(&{a.ast}, {ident})", f"{a.desc}.validate(emit {ident})",
+               [a], flags=["validate"], site=1, ident=ident), a.total, a.all)
 
 
 def RecVia(a, f):
-    return _mk(f"rec_via({a.rs}, {f.rs})", f"G::RecVia(&{a.ast}, &{f.ast})",
-               f"{a.desc}.recover_with(via_parser({f.desc}))", [a, f], flags=["recover"], site=1)
+    return _t(_mk(f"rec_via({a.rs}, {f.rs})", f"G::RecVia(&{a.ast}, &{f.ast})",
+               f"{a.desc}.recover_with(via_parser({f.desc}))", [a, f], flags=["recover"], site=1), a.total or f.total, a.all and f.all)
 
 
 def RecSkipUntil(a, skip, until):
@@ -371,32 +379,32 @@ def _nx(rs, desc, kids):
 
 
 def ThenSnd(a, b):
-    return _nx(f"then_snd({a.rs}, {b.rs})", f"({a.desc} then {b.desc}).map(snd)", [a, b])
+    return _t(_nx(f"then_snd({a.rs}, {b.rs})", f"({a.desc} then {b.desc}).map(snd)", [a, b]), a.total and b.total, b.all)
 
 
 def ThenFst(a, b):
-    return _nx(f"then_fst({a.rs}, {b.rs})", f"({a.desc} then {b.desc}).map(fst)", [a, b])
+    return _t(_nx(f"then_fst({a.rs}, {b.rs})", f"({a.desc} then {b.desc}).map(fst)", [a, b]), a.total and b.total, b.all)
 
 
 def MapUnit(a):
-    return _nx(f"map_unit({a.rs})", f"{a.desc}.map(|_| ())", [a])
+    return _t(_nx(f"map_unit({a.rs})", f"{a.desc}.map(|_| ())", [a]), a.total, a.all)
 
 
 def MapTo(a, c):
-    return _nx(f"map_to({a.rs}, {c})", f"{a.desc}.map(|_| {c})", [a])
+    return _t(_nx(f"map_to({a.rs}, {c})", f"{a.desc}.map(|_| {c})", [a]), a.total, a.all)
 
 
 def ToSpan(a):
-    return _nx(f"to_span_({a.rs})", f"{a.desc}.to_span()", [a])
+    return _t(_nx(f"to_span_({a.rs})", f"{a.desc}.to_span()", [a]), a.total, a.all)
 
 
 def SpOnly(a):
-    return _nx(f"sp_only({a.rs})", f"{a.desc}.map_with(span)", [a])
+    return _t(_nx(f"sp_only({a.rs})", f"{a.desc}.map_with(span)", [a]), a.total, a.all)
 
 
 def ToSliceLen(a):
-    return _nx(f"to_slice_len({a.rs})", f"{a.desc}.to_slice().len", [a])
+    return _t(_nx(f"to_slice_len({a.rs})", f"{a.desc}.to_slice().len", [a]), a.total, a.all)
 
 
 def SlLen(a):
-    return _nx(f"sl_len({a.rs})", f"{a.desc}.map_with(span.len)", [a])
+    return _t(_nx(f"sl_len({a.rs})", f"{a.desc}.map_with(span.len)", [a]), a.total, a.all)
